@@ -234,6 +234,10 @@ impl<const N: usize> UdpAssociateContext<N> {
             user: None,
             bound: false,
         };
+        #[cfg(octo_squirrel_verif)]
+        if let Some(packet_id) = octo_squirrel::verif::world::initial_packet_id(false) {
+            assoc.server_packet_id = packet_id;
+        }
         let task = tokio::spawn(async move { assoc.relay(receiver).await });
         Ok(UdpAssociate { task, sender })
     }
